@@ -149,3 +149,7 @@ vt_proof_pg_findspec! { unwind = 10; fn c28_tree_insert_no_split() {
     tree_insert::<3>([2, 3, 5], [3, 1, 2], 1, true, true); tree_insert::<3>([2, 3, 5], [3, 1, 2], 1, false, true);
     kani::cover!(true, "w:reached_end");
 }}
+
+/// Entry point for a hand-written native replay (in case Kani's trace generation runs out of memory).
+#[cfg(kani)]
+pub fn replay_tree_update_grow_free5() { tree_update::<2>([3, 3], [1, 1], 0, 3, 40 + 10 + 5) }
